@@ -28,6 +28,8 @@ the code for all inputs:
       called is inlined at its call sites
   N14 a direct call of an undecorated module-level function of the same module whose body is a single `return E` is E
       with the arguments substituted (when every argument is simple, or every parameter is used once and E has no inner call)
+  N12b a local function that is only called as a statement with plain names as arguments, and neither returns a value
+      nor returns early, is its body at each call site (parameters replaced by the argument names)
   N6  `t = E` immediately followed by `return t`, where every binding of the local t is such a pair and t is used
       nowhere else  -> `return E`
 
@@ -444,8 +446,74 @@ def _inline_closures(fn):
         ast.fix_missing_locations(fn)
 
 
+def _inline_procedures(fn):
+    """N12b: a local function that is only ever called as a statement `g(a, b)` with plain names as arguments, and whose
+    body neither returns a value nor returns early, is its body with the parameters replaced by those names - at each
+    call site, also inside nested functions of the same scope (closure variables are read at call time)."""
+    import copy as _copy
+
+    for g in [st for st in fn.body if isinstance(st, ast.FunctionDef)]:
+        a = g.args
+        if a.posonlyargs or a.kwonlyargs or a.vararg or a.kwarg or a.defaults or g.decorator_list or not a.args:
+            continue
+        body = [st for st in g.body if not (isinstance(st, ast.Expr) and isinstance(st.value, ast.Constant) and isinstance(st.value.value, str))]
+        if not body or any(isinstance(n, (ast.Return, ast.Yield, ast.YieldFrom, ast.Await, ast.Global, ast.Nonlocal, ast.FunctionDef, ast.Lambda)) for st in body for n in ast.walk(st)):
+            continue
+        params = [x.arg for x in a.args]
+        uses = [n for st in fn.body if st is not g for n in ast.walk(st) if isinstance(n, ast.Name) and n.id == g.name]
+        sites = []
+
+        def collect(stmts):
+            for st in stmts:
+                if isinstance(st, ast.Expr) and isinstance(st.value, ast.Call) and isinstance(st.value.func, ast.Name) and st.value.func.id == g.name:
+                    sites.append(st)
+                for fld in ("body", "orelse", "finalbody"):
+                    sub = getattr(st, fld, None)
+                    if isinstance(sub, list) and sub and isinstance(sub[0], ast.stmt):
+                        collect(sub)
+                for h in getattr(st, "handlers", []) or []:
+                    collect(h.body)
+
+        collect([st for st in fn.body if st is not g])
+        if not sites or len(uses) != len(sites):
+            continue
+        if not all(len(st.value.args) == len(params) and not st.value.keywords and all(isinstance(x, ast.Name) for x in st.value.args) for st in sites):
+            continue
+        site_ids = {id(st) for st in sites}
+
+        def expand(st):
+            bind = {p_: x.id for p_, x in zip(params, st.value.args)}
+
+            class S(ast.NodeTransformer):
+                def visit_Name(self, n):
+                    if n.id in bind:
+                        return ast.copy_location(ast.Name(id=bind[n.id], ctx=n.ctx), n)
+                    return n
+
+            return [ast.copy_location(S().visit(_copy.deepcopy(b_)), st) for b_ in body]
+
+        def rewrite(stmts):
+            out = []
+            for st in stmts:
+                if id(st) in site_ids:
+                    out.extend(expand(st))
+                    continue
+                for fld in ("body", "orelse", "finalbody"):
+                    sub = getattr(st, fld, None)
+                    if isinstance(sub, list) and sub and isinstance(sub[0], ast.stmt):
+                        setattr(st, fld, rewrite(sub))
+                for h in getattr(st, "handlers", []) or []:
+                    h.body = rewrite(h.body)
+                out.append(st)
+            return out
+
+        fn.body = rewrite([st for st in fn.body if st is not g])
+        ast.fix_missing_locations(fn)
+
+
 def normalise_function(fn):
     _inline_closures(fn)
+    _inline_procedures(fn)
     a = fn.args
     params = {x.arg for x in a.posonlyargs + a.args + a.kwonlyargs}
     if a.vararg:
